@@ -111,6 +111,8 @@ impl<T: TearableAtomic> SyncCell<T> {
         self.inner
             .sequence
             .store(seq.wrapping_add(1), Ordering::Relaxed);
+        #[cfg(feature = "verif-hooks")]
+        crate::verif_hooks::probe(crate::verif_hooks::site::CELL_WRITE_ODD, seq);
 
         // Store the value.
         //
@@ -120,6 +122,8 @@ impl<T: TearableAtomic> SyncCell<T> {
         // tentatively read, or a later increment of the sequence count.
         atomic::fence(Ordering::Release);
         self.inner.tearable.tearable_store(value);
+        #[cfg(feature = "verif-hooks")]
+        crate::verif_hooks::probe(crate::verif_hooks::site::CELL_WRITE_STORED, seq);
 
         // Increment the sequence count to an even number.
         //
@@ -165,9 +169,13 @@ impl<T: TearableAtomic> SyncCellReader<T> {
             return Err(SyncCellReadError {});
         }
 
+        #[cfg(feature = "verif-hooks")]
+        crate::verif_hooks::probe(crate::verif_hooks::site::CELL_READ_SEQ_LOADED, seq);
         // Attempt to load the value, which may be torn if there is a concurrent
         // write operation.
         let value = self.inner.tearable.tearable_load();
+        #[cfg(feature = "verif-hooks")]
+        crate::verif_hooks::probe(crate::verif_hooks::site::CELL_READ_VALUE_LOADED, seq);
 
         // Ordering: this Acquire fence synchronizes with the Release fence in
         // `SyncCell::write` and ensures that the below read of the sequence
